@@ -21,6 +21,7 @@ import (
 	"path/filepath"
 	"sort"
 	"strings"
+	"unicode"
 )
 
 type pkgInfo struct {
@@ -730,4 +731,73 @@ func writeLean(dir string, facts map[string]interface{}) {
 	fmt.Fprintf(&lb, "def lockFailedOpenStopsFlusher : Bool := %s\n", bl(facts["lock.failedOpenStopsFlusher"]))
 	lb.WriteString("\nend Mkdb.Generated\n")
 	writeIfChanged(filepath.Join(dir, "Locks.lean"), lb.Bytes())
+	writeLower(dir)
+}
+
+// writeLower writes the simple lower-case mapping of the Go library this program is built with (the
+// one mkdb is built with: GOTOOLCHAIN=local) - what strings.ToLower applies rune by rune to a
+// database name (storage/file.go): every pair (r, unicode.ToLower(r)) with unicode.ToLower(r) != r,
+// r ascending over all code points.  The pairs come in lists of at most 32 (one long literal is slow
+// to elaborate); lowerChunks pairs each list with its last (largest) r, so that a lookup picks the
+// list first (the kernel of Lean checks facts about the whole table by evaluation: a linear search
+// per pair is too slow).  Core Lean only: the driver links this file.
+func writeLower(dir string) {
+	var pairs [][2]rune
+	for r := rune(0); r <= unicode.MaxRune; r++ {
+		if l := unicode.ToLower(r); l != r {
+			pairs = append(pairs, [2]rune{r, l})
+		}
+	}
+	var b bytes.Buffer
+	fmt.Fprintf(&b, "/- GENERATED by tools/extract from the unicode package of the Go library (Unicode %s) — do not edit. -/\nnamespace Mkdb.Generated\n\n", unicode.Version)
+	fmt.Fprintf(&b, "def lowerUnicodeVersion : String := %q\n\n", unicode.Version)
+	const chunk = 32
+	var last []rune
+	for i := 0; i < len(pairs); i += chunk {
+		end := i + chunk
+		if end > len(pairs) {
+			end = len(pairs)
+		}
+		fmt.Fprintf(&b, "def lowerPairs%d : List (Nat × Nat) := [", len(last))
+		for k, p := range pairs[i:end] {
+			if k%8 == 0 {
+				b.WriteString("\n ")
+			}
+			sep := ","
+			if i+k == end-1 {
+				sep = ""
+			}
+			fmt.Fprintf(&b, " (%d, %d)%s", p[0], p[1], sep)
+		}
+		b.WriteString("]\n\n")
+		last = append(last, pairs[end-1][0])
+	}
+	b.WriteString("/-- the lists in order, each with its last (largest) r -/\ndef lowerChunks : List (Nat × List (Nat × Nat)) := [")
+	for k, l := range last {
+		if k%4 == 0 {
+			b.WriteString("\n ")
+		}
+		sep := ","
+		if k == len(last)-1 {
+			sep = ""
+		}
+		fmt.Fprintf(&b, " (%d, lowerPairs%d)%s", l, k, sep)
+	}
+	b.WriteString("]\n\n")
+	b.WriteString("/-- every (r, unicode.ToLower(r)) with unicode.ToLower(r) != r, r ascending -/\ndef lowerPairsList : List (Nat × Nat) :=\n  ")
+	for k := range last {
+		if k > 0 {
+			b.WriteString(" ++ (")
+		}
+		fmt.Fprintf(&b, "lowerPairs%d", k)
+	}
+	if len(last) == 0 {
+		b.WriteString("[]")
+	} else {
+		b.WriteString(strings.Repeat(")", len(last)-1))
+	}
+	fmt.Fprintf(&b, "\n\ndef lowerPairsCount : Nat := %d\n\n", len(pairs))
+	b.WriteString("def lowerPairs : Array (Nat × Nat) := lowerPairsList.toArray\n")
+	b.WriteString("\nend Mkdb.Generated\n")
+	writeIfChanged(filepath.Join(dir, "Lower.lean"), b.Bytes())
 }
